@@ -135,7 +135,7 @@ def cli_args(opts):
         elif kind in ("int", "str"):
             argv += ["--" + k, str(v)]
         elif kind == "list":
-            argv += ["--" + k] + list(v)
+            argv += ["--" + k] + list(v)  # an empty list is expressible: the option without values (nargs="*")
         elif kind == "dict":
             argv += ["--" + k, json.dumps(v)]
     return argv
@@ -313,6 +313,9 @@ def enumerate_cases():
         yield {"cli": {opt: v1}, "file": {other[0]: other[1]}, "cfg": names[(k + 2) % 4]}  # file silent on opt
         if kind != "bool":
             yield {"cli": {opt: v2}, "file": {opt: v1}, "cfg": names[(k + 3) % 4]}
+        if kind in ("list", "dict"):
+            # the file names the option with an empty value: it still wins over the command line
+            yield {"cli": {opt: v2}, "file": {opt: [] if kind == "list" else {}}, "cfg": names[k % 4]}
     base = {"hover_language": "clilang", "max_line_length": 60, "pp_defs": {"FOO": "1"}, "notify_init": True, "pp_suffixes": [".F90", ".f90"]}
     for f in FAULTS:
         if f == "wrongtype":
@@ -337,6 +340,8 @@ def multi_case_st(draw):
             cli[o] = a if kind != "bool" else True
         if cell in ("file", "both"):
             file[o] = b
+            if kind in ("list", "dict") and draw(st.integers(0, 3)) == 0:
+                file[o] = [] if kind == "list" else {}
     return {"cli": cli, "file": file, "cfg": draw(st.sampled_from([".fortlsrc", ".fortls.json", ".fortls", ["-c", "custom.json"]]))}
 
 
